@@ -22,7 +22,7 @@ RULE = (
     "2-switch, label moved to another atom, two atoms' elements swapped, one CFI twist, catalogued "
     "SRG / cospectral pairs, mass<->rad exchanged); (3) a per-shard dictionary string -> first "
     "molecule fed by all molecules of (2). Oracle: equal strings imply colour-preserving "
-    "isomorphism (own search with verified witness; VF2 cross-check n<=24). Non-trivial = a "
+    "isomorphism (own search with verified witness; VF2 cross-check n<=10). Non-trivial = a "
     "non-isomorphic pair agreeing in formula, degree sequence and 1-WL colour histogram, and every "
     "enumerated class once; distinct by digest."
 )
